@@ -96,7 +96,9 @@ Verb(v, st, fn, f, rx, rs, a, g, m) == [v |-> v, st |-> st, fn |-> fn, f |-> f, 
 Fn0 == Fn(FALSE, <<>>, RX("lit", <<>>, <<>>), <<>>)
 Rx0 == RX("lit", <<>>, <<>>)
 PutV(st, fn) == Verb("put", st, fn, <<>>, Rx0, <<>>, <<>>, FALSE, "")
-SubV(v, f, rx, a) == Verb(v, <<>>, Fn0, f, rx, <<>>, a, FALSE, "")       \* v: "sub" "gsub" "ssub";  mlr sub -f f1,f2 re a
+SubV(v, f, rx, a) == Verb(v, <<>>, Fn0, f, rx, <<>>, a, FALSE, "f")      \* v: "sub" "gsub" "ssub";  mlr sub -f f1,f2 re a
+SubVR(v, r, rx, a) == Verb(v, <<>>, Fn0, <<>>, rx, <<r>>, a, FALSE, "r")  \*   mlr sub -r fieldregex re a
+SubVA(v, rx, a) == Verb(v, <<>>, Fn0, <<>>, rx, <<>>, a, FALSE, "a")      \*   mlr sub -a re a
 CutV(rs, x) == Verb("cut", <<>>, Fn0, <<>>, Rx0, rs, <<>>, x, "")          \* mlr cut [-x] -r -f re1,re2
 HavingV(m, rx) == Verb("having-fields", <<>>, Fn0, <<>>, rx, <<>>, <<>>, FALSE, m)   \* m: "any" "all" "none"
 RenameV(rx, a, g) == Verb("rename", <<>>, Fn0, <<>>, rx, <<>>, a, g, "")   \* mlr rename [-g] -r re,a
@@ -107,15 +109,18 @@ SeqSet(t) == {t[k] : k \in 1..Len(t)}
 RECURSIVE FirstOcc(_, _, _)
 FirstOcc(s, p, k) == IF k + Len(p) - 1 > Len(s) THEN 0 ELSE IF SubSeq(s, k, k + Len(p) - 1) = p THEN k ELSE FirstOcc(s, p, k + 1)
 Ssub(s, p, t) == LET k == FirstOcc(s, p, 1) IN IF p = <<>> \/ k = 0 THEN s ELSE SubSeq(s, 1, k - 1) \o t \o SubSeq(s, k + Len(p), Len(s))
-\* sub / gsub / ssub verbs: "Replaces old string with new string in specified field(s) ... like the `sub` DSL function"
-SubField(vb, fld) ==
-  IF fld.n \notin SeqSet(vb.f) \/ ~IsText(fld.v) THEN fld
-  ELSE F(fld.n, VStr(CASE vb.v = "sub" -> SubStr(fld.v.s, vb.rx.re, RxCI(vb.rx), vb.a)
-                       [] vb.v = "gsub" -> GsubStr(fld.v.s, vb.rx.re, RxCI(vb.rx), vb.a)
-                       [] vb.v = "ssub" -> Ssub(fld.v.s, Text(vb.rx.re), vb.a)))
 \* cut -r: "Treat field names as regular expressions. "ab", "a.*b" will match any field name containing the substring
 \* "ab" or matching "a.*b""; -x: "Exclude, rather than include"
 NameHit(n, rs) == \E k \in 1..Len(rs) : Matches(n, rs[k].re, RxCI(rs[k]))
+\* sub / gsub / ssub verbs: "Replaces old string with new string in specified field(s) ... like the `sub` DSL function";
+\* "-f {a,b,c} Field names to apply substitution to. -r {regex} Regular expression for field names to apply substitution
+\* to. -a Apply substitution to all fields."
+Selected(vb, n) == CASE vb.m = "f" -> n \in SeqSet(vb.f) [] vb.m = "r" -> NameHit(n, vb.rs) [] vb.m = "a" -> TRUE
+SubField(vb, fld) ==
+  IF ~Selected(vb, fld.n) \/ ~IsText(fld.v) THEN fld
+  ELSE F(fld.n, VStr(CASE vb.v = "sub" -> SubStr(fld.v.s, vb.rx.re, RxCI(vb.rx), vb.a)
+                       [] vb.v = "gsub" -> GsubStr(fld.v.s, vb.rx.re, RxCI(vb.rx), vb.a)
+                       [] vb.v = "ssub" -> Ssub(fld.v.s, Text(vb.rx.re), vb.a)))
 \* rename -r: "Treat old field names as regular expressions ... New field names may be plain strings, or may contain
 \* capture groups of the form "\1" through "\9""; -g: "Do global replacement within each field name rather than
 \* first-match replacement"
@@ -131,8 +136,9 @@ AllText(rec) == \A k \in 1..Len(rec) : IsText(rec[k].v)
 \* one record through one verb (not put): [u, rs: zero or one record]
 Keep(b, rec) == IF b THEN <<rec>> ELSE <<>>
 VerbRec(vb, rec) ==
-  CASE vb.v \in {"sub", "gsub", "ssub"} -> [u |-> FALSE, rs |-> << [k \in 1..Len(rec) |-> SubField(vb, rec[k])] >>]
-    [] vb.v = "cut" -> [u |-> FALSE, rs |-> << SelectSeq(rec, LAMBDA fld : NameHit(fld.n, vb.rs) # vb.g) >>]
+  CASE vb.v \in {"sub", "gsub", "ssub"} -> [u |-> \E k \in 1..Len(rec) : Selected(vb, rec[k].n) /\ ~IsText(rec[k].v),     \* (a non-string field: not stated)
+                                            rs |-> << [k \in 1..Len(rec) |-> SubField(vb, rec[k])] >>]
+    [] vb.v = "cut" -> (LET out == SelectSeq(rec, LAMBDA fld : NameHit(fld.n, vb.rs) # vb.g) IN [u |-> out = <<>>, rs |-> <<out>>])   \* (a record left without fields: not stated)
     [] vb.v = "having-fields" ->
          (LET hits == {k \in 1..Len(rec) : Matches(rec[k].n, vb.rx.re, RxCI(vb.rx))} IN
           [u |-> FALSE, rs |-> Keep(CASE vb.m = "any" -> hits # {} [] vb.m = "all" -> hits = 1..Len(rec) [] vb.m = "none" -> hits = {}, rec)])
